@@ -32,8 +32,15 @@ VARIABLES op,        \* [name, scope]      the call under test
           pc, result, calls, undoFailed, tmp
 vars == <<op, faults, pre, doc, keys, kids, pc, result, calls, undoFailed, tmp>>
 
+\* the storage calls the two operations make ...
 GenCalls   == {"generate", "insert_key_id", "delete"}
 PurgeCalls == {"get_key_id", "delete", "delete_key_id", "insert_key_id"}
+\* ... and the whole trait surface: a fault armed on a call the operation never makes must change nothing (an
+\* implementation that starts consulting e.g. `exists` on its undo path is then judged under that call failing, too)
+AllCalls == {"generate", "insert", "sign", "delete", "exists", "insert_key_id", "get_key_id", "delete_key_id"}
+CONSTANT FaultUniverse     \* "made" (quick): subsets of the calls the operation makes; "all" (thorough): subsets of AllCalls
+FaultSets(made) == IF FaultUniverse = "all" THEN SUBSET AllCalls
+                   ELSE {m \cup x : m \in SUBSET made, x \in {{}, {"exists"}, {"insert", "sign"}, AllCalls \ made}}
 
 Docs == [t : {"absent"}, embRel : {"none"}, refs : SUBSET Rels]
         \cup [t : {"vm"}, embRel : {"none"}, refs : SUBSET Rels]
@@ -59,11 +66,11 @@ Finish(r) == pc' = "done" /\ result' = r
 
 Init ==
   /\ \/ /\ op \in [name : {"generate"}, scope : {"vm"} \cup Rels, form : {"exact"}]
-        /\ faults \in SUBSET GenCalls
+        /\ faults \in FaultSets(GenCalls)
         /\ doc \in Docs
         /\ keys = (IF doc.t = "absent" THEN {} ELSE {"kT"}) /\ kids = (IF doc.t = "absent" THEN {} ELSE {"dT"})
      \/ /\ op \in [name : {"purge"}, scope : {"none"}, form : {"exact", "query"}]
-        /\ faults \in SUBSET PurgeCalls
+        /\ faults \in FaultSets(PurgeCalls)
         /\ doc \in Docs
         /\ keys = (IF doc.t = "absent" THEN {} ELSE {"kT"}) /\ kids = (IF doc.t = "absent" THEN {} ELSE {"dT"})
   /\ pre = [doc |-> doc, keys |-> keys, kids |-> kids]
